@@ -9,11 +9,26 @@ from translator import t1_operators
 ID = 'C20'
 TRANSLATORS = []
 PROPERTY_FILE = 'Properties/C20.v'
-THEOREMS = []
+THEOREMS = ['C20_top_sort_operands_first', 'C20_top_sort_users_first', 'C20_traverse_total',
+            'C20_default_starts_exist', 'C20_traverse_yields_reachable', 'C20_traverse_hooks',
+            'C20_dfs_post_order', 'C20_traverse_unvisited', 'C20_precedes_positions', 'C20_cycle_check_iff',
+            'C20_cycle_check_total', 'C20_cycle_check_sound', 'C20_cycle_check_all_gates_acyclic',
+            'C20_acyclic_cycle_check_all_gates', 'C20_example_wf', 'C20_example_runs', 'C20_example_cycle']
 PARTIAL = {}
-LEVEL_TEXT = 'pending'
-LEVEL_NOTE = 'pending'
-TECHNIQUE = 'pending'
+LEVEL_TEXT = ('every clause of the property is a Coq theorem about the executable model of top_sort / _traverse_circuit / '
+              'check_circuit_has_no_cycles, for all well-formed circuits, start sets, directions and modes (Kahn: total, '
+              'permutation, dependency order; work-list traversal: fuel adequacy, yields = reachable set each once, '
+              'enter-before-exit, DFS post-order, unvisited hook = unreached gates in the stated order; cycle check on '
+              'arbitrary netlists: raises iff a cycle is reachable from the outputs). The model is hand-written and tied '
+              'to /repo on every run by comparing complete hook/yield event logs and exceptions on generated DAGs and '
+              'cyclic netlists')
+LEVEL_NOTE = ('Coq kernel + vm_compute; hand-written model of the traversal loops (fuel instead of while); correspondence '
+              'harness; hypotheses: WF c (C02 invariant) and start labels name gates; for the cycle-check iff: duplicate-free '
+              'gate map, operands and outputs exist. Hooks are observed as an event log; hooks that mutate the circuit during '
+              'traversal are outside the model')
+TECHNIQUE = ('Coq proof by loop invariants over the fuelled work-list loops (Kahn invariant with rank descent; DFS '
+             'entered-labels-form-a-path invariant; decreasing measure for fuel adequacy) + exact event-log correspondence '
+             'with the implementation')
 TRUSTED = []
 ASSUMPTIONS = []
 
